@@ -214,6 +214,8 @@ def check_witness(ck, owners, fn, objs, rule, exits=("ret",)):
         for f in case_split(split, base, max_cases=256):
             if f.eval(simplify_cond(xguard, f)) is False or f.infeasible():
                 continue  # this resolution does not reach the exit
+            if xkind == "resume" and f.decide(("throws", _throw_seq(xguard))) is not True:
+                continue  # the exit is reached through a value-type operation that threw: outside the fault model
             ncases += 1
             _check_case(ck, owners, fn, objs, rule, sm, f, olds, finals, ea, ed, xkind)
         rec.count("ownership_cases", ncases)
@@ -269,8 +271,15 @@ def _check_case(ck, owners, fn, objs, rule, sm, f, olds, finals, ev_alloc, ev_de
         isnull = f.decide(c_cmp("eq", p, ZERO))
         if isnull is True:
             if o.kind == "data":
-                # inductive invariant I5-null of the pre-state: no block => no bytes accounted
+                # inductive invariant I5-null of the pre-state: no block => no bytes accounted, no elements
                 f.add(c_cmp("eq", b, ZERO))
+                if not tu.meta[fn].get("element"):
+                    for (arg_, role_, pre_, post_) in objs:
+                        if arg_ == arg and pre_ is not None:
+                            try:
+                                f.add(c_cmp("eq", tu.obs(fn, pre_, "size"), ZERO))
+                            except AnalysisBroken:
+                                pass
             continue
         blocks[S(p)] = {"bytes": S(b), "id": S(i), "origin": "%s.%s" % (arg, o.kind), "state": "owned", "kind": o.kind, "maybe_null": isnull is None}
     if f.infeasible():
